@@ -17,7 +17,7 @@ PID = 'C04'
 
 META = {
     'technique': 'lockset dataflow over clang CFGs with interprocedural entry locksets (pairing, lock-order graph acyclicity, guarded-by of shared counters), writer inventory of globals by thread-entry reachability, wait/post matching by type-resolved field',
-    'text': 'Decides necessary structural conditions of schedule-independence for the encoder pipeline on all paths: no lock leaked on a normal exit, acyclic lock order, no blocking call under a lock beyond the allow-list, every read-modify-write of a shared per-picture counter under its mutex, pipeline-written globals consistently locked or single-threaded, and no wait without a matching post. A data race, lock-order cycle or orphan wait is sufficient to break the property; their absence is necessary, not sufficient (value-level order independence of the reorder queues is not decided).',
+    'text': 'Decides necessary structural conditions of schedule-independence for the encoder pipeline on all paths: no lock leaked on a normal exit, acyclic lock order, no blocking call under a lock beyond the allow-list, every read-modify-write of a shared per-picture counter under its mutex, pipeline-written globals consistently locked or single-threaded, and no wait without a matching post. A data race, lock-order cycle or orphan wait is sufficient to break the property; their absence is necessary, not sufficient (value-level order independence of the reorder queues is not decided). Also decided: a condition variable that is waited on is re-armed by pipeline code for every reuse of its pooled picture object, and every per-picture segment accumulator is put back to its start value by pipeline code (a recycled control set otherwise completes early).',
     'note': 'thread entry points are the functions passed to svt_create_thread; INIT_ONLY/DCTOR code is single-threaded by construction; plain "=" resets before the SRM hand-off are ordered by the hand-off; allocation-failure exits (returns inside throwing allocation macros) are outside this property (C16) and reported as informational',
     'ref': 'DESIGN.md section 5 C04',
 }
